@@ -12,7 +12,8 @@
    RTI, and unchanged for every other instruction; taking an interrupt adds one. *)
 From Coq Require Import ZArith List Bool.
 From Model Require Import Bits Word Instr Sim.
-From Proofs Require Import SimAccess SimFrames.
+From Proofs Require Import SimAccess SimFrames IrqProofs SimStepObs SimStepFrames.
+Import ListNotations.
 Open Scope Z_scope.
 
 Theorem C27_push : forall a b f s,
@@ -63,6 +64,52 @@ Theorem C27_trap_exception_entry_depth : forall e v s s' u,
 Proof. intros e v s s' u E. exact (fe_handle_interrupt_none e v s s' u E). Qed.
 Print Assumptions C27_trap_exception_entry_depth.
 
+(* whole steps and runs (machine states before and after [step_in]; [Completed] as in C28_completed_def) *)
+Theorem C27_step_depth : forall e s s' u s1 w i, Completed e s s' u s1 w i ->
+  s_frame_no s' = depth_effect i (s_frame_no s).
+Proof. exact step_depth. Qed.
+Print Assumptions C27_step_depth.
+Theorem C27_interrupt_step_depth : forall e s s' u v p, takes_irq e s v p ->
+  step_inner e (upd_obs s []) = (s', inl u) -> s_frame_no s' = s_frame_no s + 1.
+Proof. exact step_irq_depth. Qed.
+Print Assumptions C27_interrupt_step_depth.
+(* any run of completed steps, with interrupts taken at any boundaries: the depth is the fold of the
+   events' effects — calls, traps and interrupt entries +1, RET and RTI -1 saturating at zero *)
+Theorem C27_run_depth : forall s evs s', Trace s evs s' ->
+  s_frame_no s' = fold_left (fun n ev => event_effect ev n) evs (s_frame_no s).
+Proof. exact trace_depth. Qed.
+Print Assumptions C27_run_depth.
+Theorem C27_trace_def : forall s evs s', Trace s evs s' <->
+  match evs with
+  | [] => s' = s
+  | EInstr i :: r => exists e s1 u t w, Completed e s s1 u t w i /\ Trace s1 r s'
+  | EIrq :: r => exists e s1 u v p, takes_irq e s v p /\ step_inner e (upd_obs s []) = (s1, inl u) /\ Trace s1 r s'
+  end.
+Proof.
+  intros s evs s'. split.
+  - intros T. destruct T as [s|e s s1 u t w i evs s' C T|e s s1 u v p evs s' K ST T]; [reflexivity| |].
+    + exists e, s1, u, t, w. split; assumption.
+    + exists e, s1, u, v, p. split; [assumption|split; assumption].
+  - destruct evs as [|[i|] r].
+    + intros ->. apply tr_nil.
+    + intros (e & s1 & u & t & w & C & T). exact (tr_instr e s s1 u t w i r s' C T).
+    + intros (e & s1 & u & v & p & K & ST & T). exact (tr_irq e s s1 u v p r s' K ST T).
+Qed.
+Print Assumptions C27_trace_def.
+(* a call, a body without calls / returns / interrupts, and the matching RET restore the depth *)
+Theorem C27_call_return_balanced : forall s o body s',
+  Trace s (EInstr (SJSR o) :: body ++ [EInstr (SJMP 7)]) s' -> forallb neutral body = true ->
+  0 <= s_frame_no s -> s_frame_no s' = s_frame_no s.
+Proof. exact call_body_return_depth. Qed.
+Print Assumptions C27_call_return_balanced.
+(* non-vacuity, evaluated in Coq: JSR at x3000 to x3002, RET there; depth 0 -> 1 -> 0, frame list empty again *)
+Theorem C27_run_example :
+  exists s1 s', Trace ex_call_state [EInstr (SJSR (Imm 1)); EInstr (SJMP 7)] s' /\
+    (exists u t w, Completed ex_env ex_call_state s1 u t w (SJSR (Imm 1))) /\
+    s_frame_no s1 = 1 /\ s_pc s1 = 12290 /\
+    s_frame_no s' = 0 /\ s_pc s' = 12289 /\ s_frames s' = Some [].
+Proof. exact ex_call_ret. Qed.
+Print Assumptions C27_run_example.
 (* built-in trap signatures: GETC/IN return in R0, OUT/PUTS/PUTSP take R0, HALT nothing *)
 Example C27_trap_signatures :
   trap_defn 32 = Some (PBR nil) /\ trap_defn 33 = Some (PBR (0 :: nil)) /\ trap_defn 34 = Some (PBR (0 :: nil)) /\
